@@ -51,7 +51,9 @@ def check(run):
         sessions.append(s + ("rand",))
         run.count("sessions with max_block_items >= 2^31")
     res = E.run_sessions(run, sessions, need_lean=False)
-    model = G.run_driver([s[1].abstract for s in sessions]) if run.driver_ok else [None] * len(sessions)
+    # (sessions with an application-built block are outside the abstract exporter model: no request, no comparison)
+    model = G.run_driver([s[1].abstract or "exm" for s in sessions]) if run.driver_ok else [None] * len(sessions)
+    model = [m if s[1].abstract else None for s, m in zip(sessions, model)]
     seen = set()
     for s, r, m in zip(sessions, res, model):
         run.case(s[3] if s[3] != "rand" else s[0][:200], True)
